@@ -305,37 +305,76 @@ def _src_base(objs, ptr_base, src):
     return "T%d" % t[1] if t[0] == "o" else "int"
 
 
-def obs_line(objs, tgts):
-    """the println that shows every slot of every object and what every non-null pointer points at"""
-    args = []
+class RenderError(Exception):
+    """the script is outside what can be written as one Cb program (scoping), never a verdict"""
+
+
+def _root_obj(handles, h):
+    """object a reference / alias handle finally refers to"""
+    return handles[h]["obj"]
+
+
+def view_items(objs, handles, visible, frame, globs, tgts, aliased, mat=()):
+    """what one observation prints: list of (text, getter) where getter(vals, tgts) -> list of ints"""
+    items = []
     for o, ob in enumerate(objs):
+        if frame > 0 and (o not in globs or (ob["shape"] == "a" and o in aliased)):
+            continue
         for k in range(len(ob["vals"])):
-            args.append(_desig(objs, o, k))
-    for p, t in enumerate(tgts):
-        if t is None:
-            continue
-        args.append("*p%d" % p if t[0] == "s" else "p%d->m0" % p)
-    return "println(%s);" % ", ".join(args)
+            items.append((_desig(objs, o, k), ("slot", o, k)))
+    for h in visible:
+        hd = handles[h]
+        if hd["kind"] == "p":
+            t = tgts[h] if h < len(tgts) else None
+            if t is None:
+                continue
+            if frame > 0 and objs[t[1]]["shape"] == "a" and t[1] in aliased:
+                continue
+            items.append(("*p%d" % h if t[0] == "s" else "p%d->m0" % h, ("ptr", h)))
+        else:
+            o = hd["obj"]
+            sh = objs[o]["shape"]
+            if sh == "s":
+                items.append(("r%d" % h, ("slot", o, 0)))
+            elif sh == "t":
+                # reading r.m changes what the implementation does with a later r.m = v (finding C09-const-ref-not-enforced):
+                # members are only read through a reference after the script said so (op E)
+                if h in mat:
+                    for k in range(len(objs[o]["vals"])):
+                        items.append(("r%d.m%d" % (h, k), ("slot", o, k)))
+            else:
+                for k in range(len(objs[o]["vals"])):
+                    items.append(("r%d[%d]" % (h, k), ("slot", o, k)))
+    return items
 
 
-def expected_line(vals, tgts):
-    out = [str(v) for ob in vals for v in ob]
-    for t in tgts:
-        if t is None:
-            continue
-        out.append(str(vals[t[1]][t[2]] if t[0] == "s" else vals[t[1]][0]))
+def view_expected(items, vals, tgts):
+    out = []
+    for _, g in items:
+        if g[0] == "slot":
+            out.append(str(vals[g[1]][g[2]]))
+        elif g[0] == "lit":
+            out.append(str(g[1]))
+        else:
+            t = tgts[g[1]]
+            out.append(str(vals[t[1]][t[2]] if t[0] == "s" else vals[t[1]][0]))
     return " ".join(out)
 
 
 def render_script(line, free_snaps, globs=()):
-    """Cb program for a script. `free_snaps` = the snapshots of the FREE run (one per op): they give the
-    pointer structure after every op, which fixes what each observation prints."""
+    """Cb program for a script -> (program text, plan). `free_snaps` = the snapshots of the FREE run (one per op):
+    they give the pointer structure after every op, which fixes what each observation prints. The plan is the list of
+    views (one for the start state, one per op, one after the calls have returned when the script entered callees);
+    expected_transcript turns a policy's run into the stdout it demands with it.
+    Ops H (par = 1) and Q open a callee: the rest of the script is its body (chains across call boundaries)."""
     objs, ptrs, ops = parse_script(line)
-    pre, gl, body = [], [], []
+    globs = set(globs)
+    pre, gl = [], []
     for o, ob in enumerate(objs):
         if ob["shape"] == "t":
             pre.append("struct T%d { %s };" % (o, " ".join("%sint m%d;" % ("const " if (k < len(ob["mconst"]) and ob["mconst"][k]) else "", k)
                                                            for k in range(len(ob["vals"])))))
+    frames = [{"head": "void main()", "body": [], "visible": []}]
     for o, ob in enumerate(objs):
         q = "const " if ob["const"] else ""
         if ob["shape"] == "s":
@@ -344,20 +383,66 @@ def render_script(line, free_snaps, globs=()):
             d = "%sint[%d] o%d = [%s];" % (q, len(ob["vals"]), o, ", ".join(map(str, ob["vals"])))
         else:
             d = "%sT%d o%d = {%s};" % (q, o, o, ", ".join(map(str, ob["vals"])))
-        (gl if o in globs else body).append(d)
-    ptr_base = []
+        (gl if o in globs else frames[0]["body"]).append(d)
+    handles = []          # kind p|r|a, base (pointee type of pointers), obj (references / aliases), frame
     for p, pt in enumerate(ptrs):
         t = pt["tgt"]
         base = "int" if (t is None or t[0] == "s") else "T%d" % t[1]
-        ptr_base.append(base)
+        handles.append({"kind": "p", "base": base, "frame": 0})
+        frames[0]["visible"].append(p)
         init = "" if t is None else " = " + ("&o%d" % t[1] if t[0] == "o" else "&" + _desig(objs, t[1], t[2]))
-        body.append("%s%s*%s p%d%s;" % ("const " if pt["pc"] else "", base, " const" if pt["cc"] else "", p, init))
-    tg0 = [pt["tgt"] for pt in ptrs]
-    body.append(obs_line(objs, tg0))
+        frames[0]["body"].append("%s%s*%s p%d%s;" % ("const " if pt["pc"] else "", base, " const" if pt["cc"] else "", p, init))
+    aliased = set()
+    mat = set()
+    plan = []
+
+    def cur():
+        return frames[-1]
+
+    def depth():
+        return len(frames) - 1
+
+    def observe(tgts):
+        items = view_items(objs, handles, cur()["visible"], depth(), globs, tgts, aliased, mat)
+        if not items:
+            items = [("0", ("lit", 0))]
+        plan.append(items)
+        cur()["body"].append("println(%s);" % ", ".join(t for t, _ in items))
+
+    def need_obj(o):
+        if depth() > 0 and o not in globs:
+            raise RenderError("object o%d is not visible in the callee" % o)
+        if depth() > 0 and o in aliased:
+            raise RenderError("array o%d is aliased by an array parameter" % o)
+
+    def need_h(h, kinds):
+        if h >= len(handles) or h not in cur()["visible"]:
+            raise RenderError("handle %d is not visible here" % h)
+        if handles[h]["kind"] not in kinds:
+            raise RenderError("handle %d has the wrong kind" % h)
+
+    def src_text(src):
+        if src[0] == "=":
+            need_h(int(src[1:]), "p")
+            return "p%s" % src[1:]
+        t = parse_tgt(src[1:])
+        need_obj(t[1])
+        return "&o%d" % t[1] if t[0] == "o" else "&" + _desig(objs, t[1], t[2])
+
+    def src_base(src):
+        if src[0] == "=":
+            q = int(src[1:])
+            return handles[q]["base"] if q < len(handles) else "int"
+        t = parse_tgt(src[1:])
+        return "T%d" % t[1] if t[0] == "o" else "int"
+
+    observe([pt["tgt"] for pt in ptrs])
     nfun = 0
     for i, w in enumerate(ops):
         k = w[0]
+        body = cur()["body"]
         if k == "D":
+            need_obj(int(w[2]))
             d = _desig(objs, int(w[2]), int(w[3]))
             u = int(w[4])
             if w[1] == "a":
@@ -368,29 +453,33 @@ def render_script(line, free_snaps, globs=()):
                 st = "%s++;" % d if u >= 0 else "--%s;" % d
         elif k == "W":
             o = int(w[1])
+            need_obj(o)
             vs = ", ".join(w[2:])
             if objs[o]["shape"] == "a":
                 st = "o%d = [%s];" % (o, vs)
             else:
                 st = "T%d tmp%d = {%s}; o%d = tmp%d;" % (o, i, vs, o, i)
         elif k == "N":
-            p = len(ptr_base)
+            p = len(handles)
             if w[3] == "-":
                 base = "int"
                 for w2 in ops[i + 1:]:          # the first assignment fixes the pointee type
                     if w2[0] == "P" and int(w2[1]) == p:
-                        base = _src_base(objs, ptr_base, w2[2])
+                        base = src_base(w2[2])
                         break
                 init = ""
             else:
-                base = _src_base(objs, ptr_base, w[3])
-                init = " = " + _src_text(objs, w[3])
-            ptr_base.append(base)
+                base = src_base(w[3])
+                init = " = " + src_text(w[3])
+            handles.append({"kind": "p", "base": base, "frame": depth()})
+            cur()["visible"].append(p)
             st = "%s%s*%s p%d%s;" % ("const " if w[1] == "1" else "", base, " const" if w[2] == "1" else "", p, init)
         elif k == "P":
-            st = "p%s = %s;" % (w[1], _src_text(objs, w[2]))
+            need_h(int(w[1]), "p")
+            st = "p%s = %s;" % (w[1], src_text(w[2]))
         elif k == "T":
             p, m, u = w[2], w[3], int(w[4])
+            need_h(int(p), "p")
             st = {"d": "*p%s = %d;" % (p, u),
                   "i": ("(*p%s)++;" % p) if u >= 0 else ("--(*p%s);" % p),
                   "e": "*(p%s + 0) = %d;" % (p, u),
@@ -398,6 +487,7 @@ def render_script(line, free_snaps, globs=()):
                   "a": "p%s->m%s = %d;" % (p, m, u)}[w[1]]
         elif k == "R":
             o, kk, u = int(w[3]), int(w[4]), int(w[5])
+            need_obj(o)
             q = "const " if w[2] == "1" else ""
             ty = "int" if objs[o]["shape"] == "s" else "T%d" % o
             acc = "r" if objs[o]["shape"] == "s" else "r.m%d" % kk
@@ -406,32 +496,125 @@ def render_script(line, free_snaps, globs=()):
                 pre.append("void rf%d(%s%s& r) { %s = %d; }" % (nfun, q, ty, acc, u))
                 st = "rf%d(o%d);" % (nfun, o)
             else:
-                st = "%s%s& r%d = o%d; %s = %d;" % (q, ty, i, o, acc.replace("r", "r%d" % i, 1), u)
+                st = "%s%s& rr%d = o%d; %s = %d;" % (q, ty, i, o, acc.replace("r", "rr%d" % i, 1), u)
         elif k == "C":
             nfun += 1
             pre.append("void pf%d(int* q) { *q = %d; }" % (nfun, int(w[2])))
-            st = "pf%d(%s);" % (nfun, _src_text(objs, w[1]))
+            st = "pf%d(%s);" % (nfun, src_text(w[1]))
         elif k == "M":
             p, d = w[2], int(w[3])
+            need_h(int(p), "p")
             if w[1] == "a":
                 st = "p%s = p%s %s %d;" % (p, p, "+" if d >= 0 else "-", abs(d))
             elif w[1] == "c":
                 st = "p%s %s= %d;" % (p, "+" if d >= 0 else "-", abs(d))
             else:
                 st = "p%s++;" % p if d >= 0 else "--p%s;" % p
+        elif k == "H":
+            h = len(handles)
+            par, rc = w[1] == "1", w[2] == "1"
+            if w[3][0] == "o":
+                o = int(w[3][1:])
+                need_obj(o)
+                arg = "o%d" % o
+            else:
+                j = int(w[3][1:])
+                need_h(j, "ra")
+                o = handles[j]["obj"]
+                arg = "r%d" % j
+            sh = objs[o]["shape"]
+            q = "const " if rc else ""
+            if sh == "a":
+                if not par:
+                    raise RenderError("local array reference")
+                ty, kind = "%sint[%d] r%d" % (q, len(objs[o]["vals"]), h), "a"
+            else:
+                ty, kind = "%s%s& r%d" % (q, "int" if sh == "s" else "T%d" % o, h), "r"
+            handles.append({"kind": kind, "obj": o, "frame": depth() + (1 if par else 0)})
+            if par:
+                if kind == "a":
+                    aliased.add(o)
+                body.append("cf%d(%s);" % (h, arg))
+                frames.append({"head": "void cf%d(%s)" % (h, ty), "body": [], "visible": [h]})
+                st = None
+            else:
+                cur()["visible"].append(h)
+                st = "%s = %s;" % (ty, arg)
+        elif k == "S":
+            h, m, u = int(w[2]), int(w[3]), int(w[4])
+            need_h(h, "ra")
+            sh = objs[handles[h]["obj"]]["shape"]
+            d = "r%d" % h if sh == "s" else ("r%d.m%d" % (h, m) if sh == "t" else "r%d[%d]" % (h, m))
+            if w[1] == "a":
+                st = "%s = %d;" % (d, u)
+            elif w[1] == "c":
+                st = "%s %s= %d;" % (d, "+" if u >= 0 else "-", abs(u))
+            else:
+                st = "%s++;" % d if u >= 0 else "--%s;" % d
+        elif k == "X":
+            h = int(w[1])
+            need_h(h, "a")
+            st = "r%d = [%s];" % (h, ", ".join(w[2:]))
+        elif k == "E":
+            h = int(w[1])
+            need_h(h, "r")
+            if objs[handles[h]["obj"]]["shape"] != "t":
+                raise RenderError("E on a non-struct reference")
+            mat.add(h)
+            st = None
+        elif k == "Q":
+            p = len(handles)
+            base = src_base(w[2])
+            arg = src_text(w[2])
+            handles.append({"kind": "p", "base": base, "frame": depth() + 1})
+            body.append("cf%d(%s);" % (p, arg))
+            frames.append({"head": "void cf%d(%s%s* p%d)" % (p, "const " if w[1] == "1" else "", base, p), "body": [], "visible": [p]})
+            st = None
         else:
             raise ValueError(w)
-        body.append(st)
+        if st is not None:
+            cur()["body"].append(st)
         if i < len(free_snaps):
-            body.append(obs_line(objs, parse_snap(free_snaps[i])[1]))
-    return "\n".join(pre + gl) + ("\n" if pre or gl else "") + "void main() {\n" + "\n".join("  " + b for b in body) + "\n}\n"
+            observe(parse_snap(free_snaps[i])[1])
+    if depth() > 0:
+        # after the calls have returned: everything main can see
+        tg = parse_snap(free_snaps[-1])[1] if free_snaps and len(free_snaps) == len(ops) else [pt["tgt"] for pt in ptrs]
+        items = view_items(objs, handles, frames[0]["visible"], 0, globs, tg, set(), mat)
+        plan.append(items)
+        frames[0]["body"].append("println(%s);" % ", ".join(t for t, _ in items))
+    text = "\n".join(pre + gl) + ("\n" if pre or gl else "")
+    for fr in reversed(frames):
+        text += fr["head"] + " {\n" + "\n".join("  " + b for b in fr["body"]) + "\n}\n"
+    return text, {"views": plan, "nops": len(ops), "deep": depth() > 0}
 
 
-def expected_transcript(run, init_snap):
-    """(stdout, failed?) a policy's run demands: one line for the start state, one per accepted op"""
+def expected_transcript(run, init_snap, plan):
+    """(stdout, failed?) a policy's run demands: one line for the start state, one per accepted op, and - when the
+    script entered callees and ran to its end - one line printed by main after they returned"""
     outcome, snaps = run
-    lines = [expected_line(*parse_snap(init_snap))] + [expected_line(*parse_snap(s)) for s in snaps]
+    views = plan["views"]
+    states = [parse_snap(init_snap)] + [parse_snap(s) for s in snaps]
+    lines = [view_expected(views[j], *st) for j, st in enumerate(states)]
+    if plan["deep"] and outcome == "done" and len(snaps) == plan["nops"]:
+        lines.append(view_expected(views[-1], *states[-1]))
     return "\n".join(lines) + "\n", outcome.startswith("rej")
+
+
+def chain_unsupported(family, name):
+    """chains the implementation cannot express at all (the check only demands that nothing protected changes there):
+    `const S*` parameters ("Cannot find struct definition for pointer base type: const S"), and a `const T*` VARIABLE
+    passed to a `const T*` parameter (refused although nothing is wrong with it: the parameter's own pointee const is
+    never recorded, call_impl.cpp then sees const -> non-const)."""
+    if family != "ptr":
+        return None
+    root, links, _ = name.split(":")
+    ls = links.split("-")
+    for i, l in enumerate(ls):
+        if l == "Pc" and root.endswith("struct"):
+            return "const S* parameter"
+        if l == "Pc" and i > 0 and ls[i - 1] in ("Dc", "Ac"):
+            return "const T* variable passed to a const T* parameter"
+    return None
 
 
 def parse_model_output(text):
@@ -460,11 +643,22 @@ PFORM_SITE = {"d": "DerefStore", "i": "DerefIncDec", "e": "DerefExprStore", "m":
 MOVE_SITE = {"a": "ReseatAssign", "c": "ReseatCompound", "i": "ReseatIncDec"}
 
 
-def random_script(rng, attack=0.35, avoid=()):
-    """A well-formed script: objects, initial pointers that respect the discipline, 3..9 operations.
+def via_site(par, hpar, tprot):
+    if par:
+        return "RefParamViaParam" if hpar else "RefParamViaLocal"
+    if tprot:
+        return "RefLocalViaParam" if hpar else "RefLocalViaLocal"
+    return "RefLocalCRef"
+
+
+def random_script(rng, attack=0.35, avoid=(), chains=0.5):
+    """A well-formed script: objects, initial pointers that respect the discipline, 3..10 operations.
     With probability `attack` an operation goes for something protected. `avoid` = names of check sites
     (ocaml/c09_driver.ml site_s) through which no attack is made - one per recorded finding; with
-    "MemberIncDec" in it `s.m++` is not used at all (the implementation loses the new value)."""
+    "MemberIncDec" in it `s.m++` is not used at all (the implementation loses the new value).
+    With probability `chains` the script also derives handles from handles (references, array parameters, pointer
+    parameters) and enters callees (ops H with par = 1 and Q: the rest of the script is the callee's body; only global
+    objects and the handles created in the callee are visible there)."""
     objs = []
     for i in range(rng.randint(2, 4)):
         sh = rng.choice("ssaat")
@@ -474,30 +668,51 @@ def random_script(rng, attack=0.35, avoid=()):
         if sh == "t":
             mc = [rng.random() < 0.3, False]
         objs.append({"shape": sh, "const": cst, "mconst": mc, "vals": [10 * (i + 1) + k for k in range(n)]})
+    with_chains = rng.random() < chains
+    globs = tuple(o for o in range(len(objs)) if rng.random() < (0.7 if with_chains else 0.4))
 
     def prot(o, k):
         return objs[o]["const"] or (k < len(objs[o]["mconst"]) and objs[o]["mconst"][k])
 
-    def tprot(t):
-        return objs[t[1]]["const"] if t[0] == "o" else prot(t[1], t[2])
-
-    all_slots = [(o, k) for o in range(len(objs)) for k in range(len(objs[o]["vals"]))]
     structs = [o for o in range(len(objs)) if objs[o]["shape"] == "t"]
-    ptrs = []          # dict tgt, pc, cc, base
+    hs = []            # handles: kind p|r|a, tgt, pc, cc, base, frame, par, obj, p1, pd, mat
+    state = {"depth": 0}
+    aliased = set()
+    # Whether `r.m = v` through a reference to a CONST struct is refused depends on the history of the struct's member
+    # entries (finding C09-const-ref-not-enforced: refused only once the member has been read through some reference or
+    # pointer). The machine knows two histories - nothing read / read through this very reference just before - and the
+    # scripts stay on them: `touched` = structs whose members may have been read or written through some other handle.
+    touched = set()
+    mat_by = {}
+
+    def vis_obj(o):
+        return state["depth"] == 0 or (o in globs and o not in aliased)
+
+    def vis_h(kinds):
+        return [j for j, x in enumerate(hs) if x["frame"] == state["depth"] and x["kind"] in kinds]
+
+    def slots():
+        return [(o, k) for o in range(len(objs)) if vis_obj(o) for k in range(len(objs[o]["vals"]))]
 
     def src_choice(base):
         """a pointer source of the given pointee type: (text, target, is-const-source, addr-kind)"""
         c = []
         if base == "int":
-            c += [("&s%d.%d" % (o, k), ("s", o, k), prot(o, k), "bare" if objs[o]["shape"] == "s" else "sub") for o, k in all_slots]
+            c += [("&s%d.%d" % (o, k), ("s", o, k), prot(o, k), "bare" if objs[o]["shape"] == "s" else "sub") for o, k in slots()]
         else:
             o = int(base[1:])
-            c.append(("&o%d" % o, ("o", o), objs[o]["const"], "bare"))
-        c += [("=%d" % q, x["tgt"], x["pc"], "copy") for q, x in enumerate(ptrs) if x["base"] == base and x["tgt"] is not None]
+            if vis_obj(o):
+                c.append(("&o%d" % o, ("o", o), objs[o]["const"], "bare"))
+        c += [("=%d" % q, hs[q]["tgt"], hs[q]["pc"], "copy") for q in vis_h("p") if hs[q]["base"] == base and hs[q]["tgt"] is not None]
         return rng.choice(c) if c else None
 
     def acq_site(kind, mode):
         return {"bare": "Addr", "sub": "AddrSub", "copy": "PtrCopy"}[kind] + mode
+
+    def new_ptr(tgt, pc, cc, base, par=False):
+        if tgt is not None and objs[tgt[1]]["shape"] == "t":
+            touched.add(tgt[1])
+        return {"kind": "p", "tgt": tgt, "pc": pc, "cc": cc, "base": base, "frame": state["depth"], "par": par}
 
     init_ptrs = []
     for _ in range(rng.randint(0, 2)):
@@ -507,115 +722,253 @@ def random_script(rng, attack=0.35, avoid=()):
             continue
         pc = s[2] or rng.random() < 0.3
         cc = rng.random() < 0.3
-        ptrs.append({"tgt": s[1], "pc": pc, "cc": cc, "base": base})
+        hs.append(new_ptr(s[1], pc, cc, base))
         init_ptrs.append("%s,%d,%d" % (s[0][1:], pc, cc))
     ops = []
-    nops = rng.randint(3, 9)
+    nops = rng.randint(3, 10 if with_chains else 9)
     tries = 0
-    while len(ops) < nops and tries < 200:
+    while len(ops) < nops and tries < 300:
         tries += 1
         atk = rng.random() < attack
-        c = rng.random()
         apply = None
-        if c < 0.28:
-            o, k = rng.choice(all_slots)
-            f = rng.choice("aci")
-            u = rng.choice([1, -1]) if f == "i" else rng.randint(1, 9)
-            site, viol = DIRECT_SITE[(objs[o]["shape"], f)], prot(o, k)
-            if site == "MemberIncDec" and site in avoid:
-                continue
-            text = "D %s %d %d %d" % (f, o, k, u)
-        elif c < 0.34:
-            cand = [o for o in range(len(objs)) if objs[o]["shape"] in "at"]
-            if not cand:
-                continue
-            o = rng.choice(cand)
-            viol = objs[o]["const"] or any(objs[o]["mconst"])
-            site = "WholeConst" if objs[o]["const"] else "WholeMemberConst"
-            text = "W %d %s" % (o, " ".join(str(rng.randint(1, 9)) for _ in objs[o]["vals"]))
-        elif c < 0.50:
-            if len(ptrs) >= 5:
-                continue
-            base = "int" if (not structs or rng.random() < 0.75) else "T%d" % rng.choice(structs)
-            pc = rng.random() < 0.4
-            cc = rng.random() < 0.25
-            if rng.random() < 0.15 and not cc:
-                site, viol, text = "AddrDecl", False, "N %d 0 -" % pc
-                newp = {"tgt": None, "pc": pc, "cc": False, "base": "int"}
+        if with_chains and rng.random() < 0.6:
+            # ------------------------------------------------------------ handles derived from handles, callees
+            c = rng.random()
+            if c < 0.34:
+                # bind a reference / array parameter to a bare variable or through an existing one
+                srcs = [("o", o) for o in range(len(objs)) if vis_obj(o)] + [("h", j) for j in vis_h("ra")] * 2
+                if not srcs:
+                    continue
+                kind, x = rng.choice(srcs)
+                o = x if kind == "o" else hs[x]["obj"]
+                sh = objs[o]["shape"]
+                par = rng.random() < 0.5 or sh == "a"
+                if par and state["depth"] >= 3:
+                    continue
+                rc = rng.random() < 0.4
+                if sh == "a":
+                    if kind == "o":
+                        p1, pd = objs[o]["const"], False
+                    else:
+                        p1, pd = hs[x]["pc"], hs[x]["p1"] or hs[x]["pd"]
+                    site, viol = "AddrDecl", False
+                    newh = {"kind": "a", "obj": o, "pc": rc, "p1": p1, "pd": pd, "par": True}
+                else:
+                    tprot = objs[o]["const"] if sh == "t" else prot(o, 0)
+                    if kind == "o":
+                        site, viol = ("RefParam" if par else "RefLocal"), (tprot and not rc)
+                    else:
+                        site, viol = via_site(par, hs[x]["par"], tprot), ((hs[x]["pc"] or tprot) and not rc)
+                    if (viol or (tprot and not atk)) and not atk:
+                        rc, viol = True, False
+                    newh = {"kind": "r", "obj": o, "pc": rc, "par": par, "mat": False}
+                text = "H %d %d %s%d" % (par, rc, kind, x)
+
+                def apply(newh=newh, par=par, o=o, sh=sh):
+                    if par:
+                        state["depth"] += 1
+                        if sh == "a":
+                            aliased.add(o)
+                    newh["frame"] = state["depth"]
+                    hs.append(newh)
+            elif c < 0.64:
+                cand = vis_h("ra")
+                if not cand:
+                    continue
+                j = rng.choice(cand)
+                h = hs[j]
+                o = h["obj"]
+                sh = objs[o]["shape"]
+                if h["kind"] == "a":
+                    if rng.random() < 0.2:
+                        site = "AliasOwnConst" if h["pc"] else ("AliasParentWhole" if h["p1"] else "AliasDeep")
+                        viol = h["pc"] or h["p1"] or h["pd"]
+                        text = "X %d %s" % (j, " ".join(str(rng.randint(1, 9)) for _ in objs[o]["vals"]))
+                    else:
+                        f = rng.choice("aci")
+                        m = rng.randrange(len(objs[o]["vals"]))
+                        site = "AliasOwnConst" if h["pc"] else (("AliasParentIncDec" if f == "i" else "AliasParentStore") if h["p1"] else "AliasDeep")
+                        viol = h["pc"] or h["p1"] or h["pd"]
+                        text = "S %s %d %d %d" % (f, j, m, rng.choice([1, -1]) if f == "i" else rng.randint(1, 9))
+                else:
+                    f = rng.choice("ac")
+                    m = 0 if sh == "s" else rng.randrange(2)
+                    if sh == "t" and objs[o]["const"]:
+                        if o in touched or mat_by.get(o, set()) - {j}:
+                            continue
+                        site, viol = ("RefStructRead" if h["mat"] else "RefStructFresh"), True
+                        apply = lambda o=o: touched.add(o)
+                    elif h["pc"]:
+                        site, viol = "ConstRefStore", True
+                    elif sh == "t" and objs[o]["mconst"][m]:
+                        site, viol = "RefMemberConst", True
+                    else:
+                        site, viol = "ConstRefStore", False
+                    text = "S %s %d %d %d" % (f, j, m, rng.randint(1, 9))
+            elif c < 0.72:
+                cand = [j for j in vis_h("r") if objs[hs[j]["obj"]]["shape"] == "t" and not hs[j]["mat"]]
+                if not cand:
+                    continue
+                j = rng.choice(cand)
+                site, viol, text = "AddrDecl", atk, "E %d" % j       # (no test involved; `viol = atk` keeps it)
+                if hs[j]["obj"] in touched or mat_by.get(hs[j]["obj"]):
+                    continue
+
+                def apply(j=j):
+                    hs[j]["mat"] = True
+                    mat_by.setdefault(hs[j]["obj"], set()).add(j)
             else:
+                # pointer parameter of a further callee
+                if state["depth"] >= 3:
+                    continue
+                pc = rng.random() < 0.4
+                base = "int" if (pc or not structs or rng.random() < 0.75) else "T%d" % rng.choice(structs)
                 s = src_choice(base)
                 if s is None:
                     continue
-                if s[2] and not atk:
+                if s[3] == "copy":
+                    q = hs[int(s[0][1:])]
+                    # stricter than needed, never generated: a `T* const` variable to any pointer parameter; a `const T*`
+                    # VARIABLE to a `const T*` parameter (the parameter's own pointee const is never recorded)
+                    if q["cc"] or (pc and q["pc"] and not q["par"]):
+                        continue
+                if s[2] and not atk and base == "int":
                     pc = True
-                site, viol = acq_site(s[3], "Decl"), (s[2] and not pc)
-                text = "N %d %d %s" % (pc, cc, s[0])
-                newp = {"tgt": s[1], "pc": pc, "cc": cc, "base": base}
-            apply = lambda newp=newp: ptrs.append(newp)
-        elif c < 0.60:
-            if not ptrs:
-                continue
-            p = rng.randrange(len(ptrs))
-            pt = ptrs[p]
-            s = src_choice(pt["base"])
-            if s is None or s[0] == "=%d" % p:
-                continue
-            if pt["cc"]:
-                site, viol = "ReseatAssign", True
-            else:
-                site, viol = acq_site(s[3], "Assign"), (s[2] and not pt["pc"])
-            text = "P %d %s" % (p, s[0])
-            apply = lambda pt=pt, s=s: pt.__setitem__("tgt", s[1])
-        elif c < 0.80:
-            live = [p for p, x in enumerate(ptrs) if x["tgt"] is not None]
-            if not live:
-                continue
-            p = rng.choice(live)
-            t = ptrs[p]["tgt"]
-            if t[0] == "s":
-                # (*p)++ is not implemented for a pointer to a struct member ("Invalid pointer target")
-                f = rng.choice("ddie" if objs[t[1]]["shape"] != "t" else "dde")
-                site, viol = PFORM_SITE[f], ptrs[p]["pc"]
-                text = "T %s %d 0 %d" % (f, p, rng.choice([1, -1]) if f == "i" else rng.randint(1, 9))
-            else:
-                f, m = rng.choice("ma"), rng.randrange(2)
-                site, viol = PFORM_SITE[f], ptrs[p]["pc"]
-                if not viol and objs[t[1]]["mconst"][m]:
-                    site, viol = "PtrMemberConst", True
-                text = "T %s %d %d %d" % (f, p, m, rng.randint(1, 9))
-        elif c < 0.88:
-            cand = [(o, k) for o, k in all_slots if objs[o]["shape"] in "st" and not (objs[o]["shape"] == "t" and objs[o]["mconst"][k])]
-            if not cand:
-                continue
-            o, k = rng.choice(cand)
-            param = rng.randint(0, 1)
-            rc = 1 if (atk and rng.random() < 0.3) else 0
-            if rc:
-                site, viol = "ConstRefStore", True
-            else:
-                site, viol = ("RefParam" if param else "RefLocal"), prot(o, k)
-            text = "R %d %d %d %d %d" % (param, rc, o, k, rng.randint(1, 9))
-        elif c < 0.94:
-            s = src_choice("int")
-            # a `T* const` variable cannot be passed to a `T*` parameter at all (call_impl.cpp:5626, stricter than needed)
-            if s is None or (s[3] == "copy" and ptrs[int(s[0][1:])]["cc"]) or s[1][0] != "s":
-                continue
-            site, viol = ("PtrCopyArg" if s[3] == "copy" else "AddrArg"), s[2]
-            text = "C %s %d" % (s[0], rng.randint(1, 9))
+                    if s[3] == "copy" and not hs[int(s[0][1:])]["par"]:
+                        continue
+                if s[3] == "copy":
+                    site = "PtrCopyArgParam" if hs[int(s[0][1:])]["par"] else "PtrCopyArg"
+                else:
+                    site = "AddrArg"
+                viol = s[2] and not pc
+                text = "Q %d %s" % (pc, s[0])
+                newp = new_ptr(s[1], pc, False, base, par=True)
+
+                def apply(newp=newp):
+                    state["depth"] += 1
+                    newp["frame"] = state["depth"]
+                    hs.append(newp)
         else:
-            cand = [p for p, x in enumerate(ptrs) if x["tgt"] is not None and x["tgt"][0] == "s" and objs[x["tgt"][1]]["shape"] == "a"]
-            if not cand:
-                continue
-            p = rng.choice(cand)
-            _, o, k = ptrs[p]["tgt"]
-            ds = [d for d in (1, -1) if 0 <= k + d < len(objs[o]["vals"])]
-            if not ds:
-                continue
-            d = rng.choice(ds)
-            f = rng.choice("aci")
-            site, viol = MOVE_SITE[f], ptrs[p]["cc"]
-            text = "M %s %d %d" % (f, p, d)
-            apply = lambda p=p, o=o, k=k, d=d: ptrs[p].__setitem__("tgt", ("s", o, k + d))
+            c = rng.random()
+            if c < 0.28:
+                sl = slots()
+                if not sl:
+                    continue
+                o, k = rng.choice(sl)
+                f = rng.choice("aci")
+                u = rng.choice([1, -1]) if f == "i" else rng.randint(1, 9)
+                site, viol = DIRECT_SITE[(objs[o]["shape"], f)], prot(o, k)
+                if site == "MemberIncDec" and site in avoid:
+                    continue
+                text = "D %s %d %d %d" % (f, o, k, u)
+            elif c < 0.34:
+                cand = [o for o in range(len(objs)) if objs[o]["shape"] in "at" and vis_obj(o)]
+                if not cand:
+                    continue
+                o = rng.choice(cand)
+                viol = objs[o]["const"] or any(objs[o]["mconst"])
+                site = "WholeConst" if objs[o]["const"] else "WholeMemberConst"
+                text = "W %d %s" % (o, " ".join(str(rng.randint(1, 9)) for _ in objs[o]["vals"]))
+            elif c < 0.50:
+                if len(vis_h("p")) >= 5:
+                    continue
+                base = "int" if (not structs or rng.random() < 0.75) else "T%d" % rng.choice(structs)
+                pc = rng.random() < 0.4
+                cc = rng.random() < 0.25
+                if rng.random() < 0.15 and not cc:
+                    site, viol, text = "AddrDecl", False, "N %d 0 -" % pc
+                    newp = new_ptr(None, pc, False, "int")
+                else:
+                    s = src_choice(base)
+                    if s is None:
+                        continue
+                    if s[2] and not atk:
+                        pc = True
+                    site, viol = acq_site(s[3], "Decl"), (s[2] and not pc)
+                    text = "N %d %d %s" % (pc, cc, s[0])
+                    newp = new_ptr(s[1], pc, cc, base)
+                apply = lambda newp=newp: hs.append(newp)
+            elif c < 0.60:
+                cand = vis_h("p")
+                if not cand:
+                    continue
+                p = rng.choice(cand)
+                pt = hs[p]
+                s = src_choice(pt["base"])
+                if s is None or s[0] == "=%d" % p:
+                    continue
+                if objs[s[1][1]]["shape"] == "t":
+                    touched.add(s[1][1])
+                if pt["par"] and pt["pc"] and s[2]:
+                    # refused although nothing is wrong with it (the parameter's own pointee const is never recorded): never generated
+                    continue
+                if pt["cc"]:
+                    site, viol = "ReseatAssign", True
+                else:
+                    site, viol = acq_site(s[3], "Assign"), (s[2] and not pt["pc"])
+                text = "P %d %s" % (p, s[0])
+                apply = lambda pt=pt, s=s: pt.__setitem__("tgt", s[1])
+            elif c < 0.80:
+                live = [p for p in vis_h("p") if hs[p]["tgt"] is not None]
+                if not live:
+                    continue
+                p = rng.choice(live)
+                t = hs[p]["tgt"]
+                if state["depth"] > 0 and objs[t[1]]["shape"] == "a" and t[1] in aliased:
+                    continue
+                if t[0] == "s":
+                    # (*p)++ is not implemented for a pointer to a struct member ("Invalid pointer target")
+                    f = rng.choice("ddie" if objs[t[1]]["shape"] != "t" else "dde")
+                    site, viol = PFORM_SITE[f], hs[p]["pc"]
+                    text = "T %s %d 0 %d" % (f, p, rng.choice([1, -1]) if f == "i" else rng.randint(1, 9))
+                else:
+                    f, m = rng.choice("ma"), rng.randrange(2)
+                    site, viol = PFORM_SITE[f], hs[p]["pc"]
+                    if not viol and objs[t[1]]["mconst"][m]:
+                        site, viol = "PtrMemberConst", True
+                    text = "T %s %d %d %d" % (f, p, m, rng.randint(1, 9))
+                if hs[p]["par"] and hs[p]["pc"]:
+                    site = "PtcParamStore"
+            elif c < 0.88:
+                cand = [(o, k) for o, k in slots() if objs[o]["shape"] in "st" and not (objs[o]["shape"] == "t" and objs[o]["mconst"][k])]
+                if not cand:
+                    continue
+                o, k = rng.choice(cand)
+                param = rng.randint(0, 1)
+                rc = 1 if (atk and rng.random() < 0.3) else 0
+                if rc and objs[o]["shape"] == "t" and objs[o]["const"] and (o in touched or mat_by.get(o)):
+                    continue
+                if rc:
+                    if objs[o]["shape"] == "t":
+                        touched.add(o)
+                    site, viol = "ConstRefStore", True
+                else:
+                    site, viol = ("RefParam" if param else "RefLocal"), prot(o, k)
+                text = "R %d %d %d %d %d" % (param, rc, o, k, rng.randint(1, 9))
+            elif c < 0.94:
+                s = src_choice("int")
+                # a `T* const` variable cannot be passed to a `T*` parameter at all (call_impl.cpp:5626, stricter than needed)
+                if s is None or (s[3] == "copy" and hs[int(s[0][1:])]["cc"]) or s[1][0] != "s":
+                    continue
+                site, viol = ("PtrCopyArg" if s[3] == "copy" else "AddrArg"), s[2]
+                if s[3] == "copy" and hs[int(s[0][1:])]["par"]:
+                    site = "PtrCopyArgParam"
+                text = "C %s %d" % (s[0], rng.randint(1, 9))
+            else:
+                cand = [p for p in vis_h("p") if hs[p]["tgt"] is not None and hs[p]["tgt"][0] == "s" and objs[hs[p]["tgt"][1]]["shape"] == "a"
+                        and not (state["depth"] > 0 and hs[p]["tgt"][1] in aliased)]
+                if not cand:
+                    continue
+                p = rng.choice(cand)
+                _, o, k = hs[p]["tgt"]
+                ds = [d for d in (1, -1) if 0 <= k + d < len(objs[o]["vals"])]
+                if not ds:
+                    continue
+                d = rng.choice(ds)
+                f = rng.choice("aci")
+                site, viol = MOVE_SITE[f], hs[p]["cc"]
+                text = "M %s %d %d" % (f, p, d)
+                apply = lambda p=p, o=o, k=k, d=d: hs[p].__setitem__("tgt", ("s", o, k + d))
         if viol != atk and rng.random() < 0.85:
             continue
         if viol and site in avoid:
@@ -625,7 +978,6 @@ def random_script(rng, attack=0.35, avoid=()):
             apply()
     os_ = ";".join("%s,%d,%s,%s" % (ob["shape"], ob["const"], "".join("1" if b else "0" for b in ob["mconst"]) or "-",
                                     " ".join(map(str, ob["vals"]))) for ob in objs)
-    globs = tuple(o for o in range(len(objs)) if rng.random() < 0.4)
     return "%s|%s|%s" % (os_, ";".join(init_ptrs), ";".join(ops)), globs
 
 
@@ -780,3 +1132,66 @@ def ref_program(rng, avoid_incdec=True, attack_p=0.8):
     for x, dims, _ in (carrs + lcarr)[:2]:
         main.append("(print 1 (idx %d %s))" % (x, " ".join("0" for _ in dims)))
     return "(P (%s) (%s) (%s))" % (" ".join(globs), " ".join(funcs), " ".join(main)), info
+
+
+# ====================================================================================================
+# Cells outside the machine: object kinds / mutation paths the Coq models do not contain (strings, floats, 2-D arrays,
+# nested members, methods, reference-returning functions ...). Tested only: the property demands a refusal of the const
+# version, and the control twin (qualifier removed) must run and print a changed value.
+# ====================================================================================================
+def _x(pre, decl, obs, att, where="main"):
+    """-> function(const?) -> program text; {Q} in decl/pre is the qualifier under test"""
+    def mk(const):
+        q = "const " if const else ""
+        p, d = pre.replace("{Q}", q), decl.replace("{Q}", q)
+        if where == "global":
+            return "%s%s\nvoid main() {\n  %s\n  %s\n  %s\n}\n" % (p, d, obs, att, obs)
+        return "%svoid main() {\n  %s\n  %s\n  %s\n  %s\n}\n" % (p, d, obs, att, obs)
+    return mk
+
+
+EXTRA_CELLS = [
+    ("string/assign", _x("", '{Q}string c = "abc";', "println(c);", 'c = "q";')),
+    ("string/elem", _x("", '{Q}string c = "abc";', "println(c);", "c[0] = 'x';")),
+    ("double/assign", _x("", "{Q}double c = 1.5;", "println(c);", "c = 2.5;")),
+    ("double/compound", _x("", "{Q}double c = 1.5;", "println(c);", "c += 1.0;")),
+    ("float/postinc", _x("", "{Q}float c = 1.5;", "println(c);", "c++;")),
+    ("unsigned/assign", _x("", "{Q}unsigned int c = 5;", "println(c);", "c = 6;")),
+    ("typedef/assign", _x("typedef int MyInt;\n", "{Q}MyInt c = 5;", "println(c);", "c = 6;")),
+    ("int/shl_assign", _x("", "{Q}int c = 5;", "println(c);", "c <<= 1;")),
+    ("int/mod_assign", _x("", "{Q}int c = 5;", "println(c);", "c %= 3;")),
+    ("int/assign_from_postinc", _x("", "{Q}int c = 5; int x = 0;", "println(c);", "x = c++;")),
+    ("array2d/elem", _x("", "{Q}int[2][2] c = [[1, 2], [3, 4]];", "println(c[0][1], c[1][0]);", "c[0][1] = 9;")),
+    ("array/loop_store", _x("", "{Q}int[3] c = [1, 2, 3]; int i = 0;", "println(c[0], c[1], c[2]);", "for (i = 0; i < 3; i++) { c[i] = 0; }")),
+    ("global_array/callee_store", _x("{Q}int[3] c = [1, 2, 3];\nvoid f() { c[1] = 9; }\n", "", "println(c[0], c[1], c[2]);", "f();")),
+    ("global_struct/callee_store", _x("struct S { int a; int b; };\n{Q}S c = {1, 2};\nvoid f() { c.a = 9; }\n", "", "println(c.a, c.b);", "f();")),
+    ("global/callee_assign", _x("{Q}int c = 5;\nvoid f() { c = 9; }\n", "", "println(c);", "f();")),
+    ("global/callee_postinc", _x("{Q}int c = 5;\nvoid f() { c++; }\n", "", "println(c);", "f();")),
+    ("nested_member/store", _x("struct I { int v; int w; };\nstruct O { I in; int b; };\n", "{Q}O c = {{1, 2}, 3};", "println(c.in.v, c.b);", "c.in.v = 9;")),
+    ("struct_array_member/elem", _x("struct S { int[3] a; int b; };\n", "{Q}S c = {[1, 2, 3], 4};", "println(c.a[1], c.b);", "c.a[1] = 7;")),
+    ("value_param_struct/member", _x("struct S { int a; int b; };\nvoid f({Q}S c) {\n  println(c.a, c.b);\n  c.a = 9;\n  println(c.a, c.b);\n}\n",
+                                      "S x = {1, 2};", "", "f(x);")),
+    ("array_param/elem", _x("void f({Q}int[3] c) {\n  println(c[0], c[1], c[2]);\n  c[1] = 9;\n  println(c[0], c[1], c[2]);\n}\n",
+                             "int[3] x = [1, 2, 3];", "", "f(x);")),
+    ("default_param/assign", _x("void f({Q}int c = 5) {\n  println(c);\n  c = 6;\n  println(c);\n}\n", "", "", "f();")),
+    ("static_local/assign", _x("void f() {\n  static {Q}int c = 5;\n  println(c);\n  c = 6;\n  println(c);\n}\n", "", "", "f();")),
+    ("ref_return/store", _x("{Q}int c = 5;\nint& get() { return c; }\n", "", "println(c);", "int& r = get(); r = 9;")),
+    ("method_self/store", _x("struct P { int x; };\ninterface I { void inc(); };\nimpl I for P { void inc() { self.x = self.x + 1; } };\n",
+                              "{Q}P c = {1};", "println(c.x);", "c.inc();")),
+    ("ptc/dptr_asg", _x("", "int x = 53; {Q}int* c = &x;", "println(x);", "int** pp; pp = &c; **pp = 3;")),
+    ("ptc/dptr_decl", _x("", "int x = 53; {Q}int* c = &x;", "println(x);", "int** pp = &c; **pp = 3;")),
+    ("array/copy_assign", _x("", "{Q}int[3] c = [1, 2, 3]; int[3] d = [4, 5, 6];", "println(c[0], c[1], c[2]);", "c = d;")),
+    ("string_array/elem", _x("", '{Q}string[2] c = ["a", "b"];', "println(c[0], c[1]);", 'c[0] = "x";')),
+    ("string_array/whole", _x("", '{Q}string[2] c = ["a", "b"];', "println(c[0], c[1]);", 'c = ["x", "y"];')),
+    ("struct/literal_assign", _x("struct S { int a; int b; };\n", "{Q}S c = {1, 2};", "println(c.a, c.b);", "c = {4, 5};")),
+    ("member_string/store", _x("struct S { {Q}string s; int b; };\n", 'S c = {"abc", 2};', "println(c.s, c.b);", 'c.s = "q";')),
+    ("member_array/elem", _x("struct S { {Q}int[3] a; int b; };\n", "S c = {[1, 2, 3], 4};", "println(c.a[1], c.b);", "c.a[1] = 7;")),
+    ("member/self_store", _x("struct P { {Q}int x; int y; };\ninterface I { void inc(); };\nimpl I for P { void inc() { self.x = self.x + 1; } };\n",
+                              "P c = {1, 2};", "println(c.x, c.y);", "c.inc();")),
+    ("struct_string_member/store", _x("struct S { string s; int b; };\n", '{Q}S c = {"abc", 2};', "println(c.s, c.b);", 'c.s = "q";')),
+    ("swap_like/two_stores", _x("", "{Q}int c = 5; int d = 7; int t = 0;", "println(c, d);", "t = c; c = d; d = t;")),
+]
+
+
+def extra_cells():
+    return [(name, mk(True), mk(False)) for name, mk in EXTRA_CELLS]
